@@ -10,3 +10,46 @@ UNITS = [
          note="all 2^64 displacements x every well-formed Signed/Unsigned/A64 ADR/ADRP format; loop-free => complete",
          mutants=[("bitcount_minus1", r"OffsetFormat_imm_bit_count\(format\);", "OffsetFormat_imm_bit_count(format) - 1;")]),
 ]
+
+A64 = "asmjit/arm/a64assembler.cpp"
+ARM = "contracts/c17_arm.h"
+
+
+def arm_unit(name, root, target, **kw):
+    return Unit(name="c17." + name, props=["C17", "C02"], tu=A64, roots=[root], target=target, contracts=ARM, **kw)
+
+
+UNITS += [
+    arm_unit("encode_logical_imm", "asmjit::arm::Utils::encode_logical_imm", "arm_Utils_encode_logical_imm", unwind=34,
+             note="soundness and completeness against DecodeBitMasks for all 2^64 immediates x {32,64}; element-width loop <= 6 iterations fully unwound"),
+    arm_unit("is_logical_imm", "asmjit::arm::Utils::is_logical_imm", "arm_Utils_is_logical_imm", unwind=34),
+    arm_unit("is_add_sub_imm", "asmjit::arm::Utils::is_add_sub_imm", "arm_Utils_is_add_sub_imm"),
+    arm_unit("is_fp16_imm8", "asmjit::arm::Utils::is_fp16_imm8", "arm_Utils_is_fp16_imm8", unwind=257),
+    arm_unit("is_fp32_imm8", "asmjit::arm::Utils::is_fp32_imm8#(u32", "arm_Utils_is_fp32_imm8__u32", unwind=257),
+    arm_unit("is_fp64_imm8", "asmjit::arm::Utils::is_fp64_imm8#(u64", "arm_Utils_is_fp64_imm8__u64", unwind=257),
+    arm_unit("encode_fp64_to_imm8", "asmjit::arm::Utils::encode_fp64_to_imm8#(u64", "arm_Utils_encode_fp64_to_imm8__u64", unwind=257),
+    arm_unit("is_byte_mask_imm", "asmjit::arm::Utils::is_byte_mask_imm", "arm_Utils_is_byte_mask_imm_u64", unwind=9),
+    arm_unit("encode_imm64_byte_mask_to_imm8", "asmjit::arm::Utils::encode_imm64_byte_mask_to_imm8", "arm_Utils_encode_imm64_byte_mask_to_imm8", unwind=9),
+    arm_unit("encode_mov_sequence_32", "asmjit::a64::encode_mov_sequence_32", "a64_encode_mov_sequence_32", unwind=5),
+    arm_unit("encode_mov_sequence_64", "asmjit::a64::encode_mov_sequence_64", "a64_encode_mov_sequence_64", unwind=5,
+             note="MOVZ/MOVN/MOVK interpreter reproduces imm for all 2^64 immediates; hw loop of 4 fully unwound"),
+    arm_unit("encode_lmh", "asmjit::a64::encode_lmh", "a64_encode_lmh"),
+    Unit(name="c17.encode_aarch32_imm", props=["C17"], tu=CW, roots=["asmjit::arm::Utils::encode_aarch32_imm"],
+         target="arm_Utils_encode_aarch32_imm", contracts=ARM, unwind=17, replay="replay/c17_encode_aarch32_imm.cpp"),
+]
+
+OFF = "contracts/c17_offset.h"
+UNITS += [
+    Unit(name="c17.encode_offset64", props=["C17", "C03", "C04"], tu=CW, roots=["asmjit::CodeWriterUtils::encode_offset64"],
+         target="CodeWriterUtils_encode_offset64", contracts=OFF),
+    Unit(name="c17.write_offset", props=["C17", "C03", "C04"], tu=CW, roots=["asmjit::CodeWriterUtils::write_offset"],
+         target="CodeWriterUtils_write_offset", contracts=OFF, unwind=9,
+         replace=["CodeWriterUtils_encode_offset32", "CodeWriterUtils_encode_offset64"],
+         note="modular: encode_offset32/64 replaced by their contracts; proves frame, failure-atomicity, field-exact patching"),
+    Unit(name="c17.is_encodable_offset_32", props=["C17"], tu=CW, roots=["asmjit::EmitterUtils::is_encodable_offset_32"],
+         target="EmitterUtils_is_encodable_offset_32", contracts=OFF),
+    Unit(name="c17.is_encodable_offset_64", props=["C17"], tu=CW, roots=["asmjit::EmitterUtils::is_encodable_offset_64"],
+         target="EmitterUtils_is_encodable_offset_64", contracts=OFF),
+    Unit(name="c17.is_int_n_32", props=["C17"], tu=CW, roots=["asmjit::Support::is_int_n#_32_i64"],
+         target="Support_is_int_n_32_i64", contracts=OFF),
+]
